@@ -10,6 +10,8 @@ CLAIMED = {
          TRUST + " Not decided: a client that stops reading (blocking Write) and TCP back-pressure.", TECH, "DESIGN.md §9 C03"),
  "C04": ("The only Write to the client is in responseMessage and its argument is proved to be the RESPBytes output of a non-nil message (also for nil replies and for replies that cannot be serialized); RESPBytes is proved to produce a type byte, no CR/LF inside simple-string/error/integer text for ANY payload bytes, and a CRLF terminator; bulk frames carry decimal(len) CRLF payload CRLF with the payload copied byte for byte; array frames start with '*' decimal(count) CRLF and end with a CRLF.",
          TRUST + " The full recursive grammar of nested array frames is not a single obligation: each element is appended as the proved RESPBytes output of that element.", TECH, "DESIGN.md §9 C04"),
+ "C05": ("Per-command postconditions written from an independent grammar of the command surface: for 28 commands generated from a table (GET TYPE TTL KEYS HGETALL LLEN SMEMBERS RENAME RENAMENX HGET HSET HSETNX LINDEX LRANGE ZSCORE SETNX GETSET SETEX DEL EXISTS HDEL SADD SREM ZREM LPUSH LPUSHX RPUSH RPUSHX) and for LPOP RPOP ZINCRBY EXPIRE EXPIREAT SET SCAN MGET written by hand, the ghost handler-call log is proved to gain exactly one entry whose method, connection and every argument equal the decoded request elements (strings byte for byte via string(bytes), integers via the Atoi spec function, lists element by element in order, option flags), and the executor returns the handler's message and error unchanged; dispatch looks up upper(cmd) and an unknown command yields an error reply with no handler call; the typed argument readers are proved against element-level specifications.",
+         TRUST + " Not every option grammar is specified: SET's NX/XX/EX/PX tokens, ZADD/ZRANGE*/SCAN option words, MSET/HMSET key/value maps (last value wins) and EXPIRE's time arithmetic are covered only up to the clauses listed in the contract files; strconv and strings.ToUpper are assumed (spec functions atoi, parseF, toUpper).", TECH, "DESIGN.md §9 C05"),
  "C06": ("Every obligation generated from the real SSA of redis/proto's parser (nil/bounds/alloc/div panics, the postcondition 'value | clean end of stream | error', 'no nil element in a returned array', loop invariants, termination measures of every loop and of the Next/nextArrayMessage/newArrayWithParser recursion, allocation bounds) is discharged by SMT for all byte streams, all declared lengths (full int64 range) and all read-size sequences; no bound.",
          TRUST + " Nested arrays: the no-nil-element clause is proved for each Next result at its return; the hereditary statement is that argument, not a separate obligation.", TECH, "DESIGN.md §9 C06"),
  "C07": ("Zero-annotation safety sweep (nil dereference, index/slice bounds, allocation size, division, type assertion, nil-map write, explicit panic) plus contract obligations over every function on the request path of package redis, redis/proto and redis/glob - the connection loop, dispatch, all 67 registered executors, all argument readers, constructors and serializers - for arbitrary client bytes and arbitrary handler results (nil messages, arrays with nil elements, array messages without array included); every obligation discharged.",
@@ -18,8 +20,12 @@ CLAIMED = {
          TRUST + " Assumed: the authenticator chain installed at Start compares the presented password with the configured one (auth package contracts pending); interleavings of several connections are covered by the frame (only the issuing Conn is written), not explored.", TECH, "DESIGN.md §9 C08"),
  "C09": ("Decided clauses: NewTLSConfigFrom returns a config with ClientAuth == RequireAndVerifyClientCert, ClientCAs set and MinVersion >= TLS1.2; CertificateAuthenticator accepts only if the FIRST (leaf) peer certificate carries the configured common name; receive enters its command loop for a TLS connection only if no authenticator refused (entry assertion) and otherwise returns with the socket closed before any parse; the accept loops (serve, tlsServe) return an error only when Accept failed and keep 'every accepted socket is closed or handed to a connection goroutine' (ghost pending == 0) across a failed handshake.",
          TRUST + " Trusted: crypto/tls enforces the configuration and reports the verified chain leaf-first. NOT decided: a stalled or abandoned handshake blocking the accept loop (time/concurrency), and that both listeners keep serving beyond the loop-exit obligation.", TECH, "DESIGN.md §9 C09"),
+ "C10": ("For the same commands as C05 the negation of the argument shape (a required position missing, null, of a non-string type, or a non-numeric/out-of-range token where a number is required) is proved to imply 'error returned and the handler-call log unchanged'; list commands never call the handler after an error; key/value lists with a dangling key are rejected (nextStringMapArguments), SET never reaches the handler with NX and XX together or a negative expiry, SETEX/EXPIRE reject expiries that do not fit a Duration, ZADD rejects a missing member or a trailing score.",
+         TRUST + " SET's token-level exclusivity (which tokens were sent) is proved only at the level of the options handed to the handler; unknown option words are ignored by ZRANGE/SCAN (not an error in go-redis) and are not claimed.", TECH, "DESIGN.md §9 C10"),
  "C11": ("Parser functions are proved against a ghost stream with an arbitrary end position S_end: a bulk body is returned only if all num+2 bytes were delivered, an array only if every element was (end of stream inside an array is an error), so a request cut at any byte offset is never returned as a value; receive calls handleMessage only with a value Next returned without error, and at every exit the socket is closed and the registry no larger than on entry.",
          TRUST + " Line-type values at end of stream without CRLF are accepted by the parser (the existing tests require it); valid client requests end with a bulk body, for which completeness is proved.", TECH, "DESIGN.md §9 C11"),
+ "C12": ("GETRANGE/SUBSTR: the reply is proved equal to value[lo:hi] with (lo,hi) given by spec functions of Redis' clamping rule for every length and every int64 start/end; INCR/DECR/INCRBY/DECRBY: exactly Get then Set(key, itoa(cur+delta)) and reply :new, error and no Set for non-integers and for int64 overflow (no_overflow obligation on cur+delta and on the negation); APPEND: Set(key, old++arg) and reply the new length; STRLEN/HSTRLEN/HEXISTS/HLEN replies as functions of the primitive's result; MGET: one Get per key in request order and reply[k] == k-th result; PING/ECHO; CONFIG GET returns 2 entries per requested key; ReverseBy terminates, stays in bounds and returns a fresh array of the same length under its (step, length) precondition, which both call sites establish.",
+         TRUST + " Not proved functionally: the pairing of HKEYS/HVALS, the counts of SCARD/ZCARD/SISMEMBER, the permutation computed by ReverseBy (ZREVRANGE element order), MSET/MSETNX/HMSET over Go map iteration, CONFIG SET contents. Primitive handler operations are assumed to behave like Redis.", TECH, "DESIGN.md §9 C12"),
  "C13": ("Frame obligations: every executor, executeCommand and handleMessage are proved to write no Conn field except id/authrized/username/password/hasPassword of the conn parameter (and argument cursors, string maps, ghost logs); newConnWith returns a fresh object with id 0, unauthorized, empty credentials; Database/SetDatabase/Select read and write exactly the receiver's field.",
          TRUST + " Concurrency: other connections run the same code on their own Conn object; that no other goroutine writes this Conn is an ownership argument from these frames, not an explored interleaving.", TECH, "DESIGN.md §9 C13"),
  "C19": ("receive is proved to leave the socket closed (ghost sock_closed set by net.Conn.Close) and the registry domain no larger than on entry at every return: certificate rejection, parser error, end of stream, QUIT; Close is idempotent; AddConn/RemoveConn add and remove exactly the connection's uuid.",
